@@ -342,3 +342,24 @@ META['C10'] = dict(
     technique='runtime differential monitoring: identical packet histories with a scribbled shared receive buffer vs private immutable buffers, compared per step on all retention points (virtual time)',
     level_text='Exploration: 1.5*10^3 (quick) / 10^5 (thorough) histories x 2 runs through the whole handler stack; any retained slice of the caller buffer shows up as a difference in tables, names, leases, routers, DNS entries, later replies or notifications.',
     level_note='Trusted base: determinism of the two bubbles (same virtual clock, same PRNG); canonicalisation removes map-order differences only.')
+
+PROPS['C09'] = dict(
+    runs=[run('race', race=True, shards=8, restart=False)], shards=8, watchdog=True, level='exploration',
+    rule=('randomized multi-core stress of the supported pattern under the Go race detector, one run per worker process (8 runs in quick, 48 in thorough): one packet-loop goroutine '
+          '(ReadFrom on the recorder -> Parse -> arp/dhcp4/icmp4/icmp6/ProcessMDNS (+UpdateMDNSName) -> Notify) fed a frame mix over 6 MACs x 12 addresses (IPv4, ARP, IPv6 LLA/GUA, DHCP, RA, mDNS); '
+          'a purge goroutine calling the hook VerifPurge(now) with now alternating present / +6 min / +62 min so hosts continuously age, die and are re-created; the real spoof loops of both '
+          'spoofers; a channel drainer; 8-14 API goroutines drawing from FindIP (+row-locked field reads), GetHosts, IPAddrs, FindByMAC, FindMACEntry, PrintTable, Capture, Release, IsCaptured, '
+          'SetDHCPv4IPOffer, DHCPv4IPOffer, arp/icmp6 StartHunt/StopHunt, IsHunting, dhcp MinuteTicker, handler PrintTable, FindRouter; finally Close of handlers and session while traffic flows. '
+          'Per run a different GOMAXPROCS (2/4/16) and a different perturbation vector over the 8 tag-guarded yield points (nothing / Gosched / sleep 50-500 us). Oracles: race-detector reports parsed '
+          'from GORACE logs (key = pair of innermost irai/packet frames), process-fatal errors and panics, a progress monitor (25 s without progress + goroutines parked on mutexes = deadlock), C05 '
+          'invariants at barriers where all harness goroutines are parked, goroutines still running library code 1.5 s after Close, a deterministic Close/leak check in synctest bubbles, and a porcupine '
+          'linearizability check of Capture/Release/IsCaptured and offer accessors on two never-purged MACs. Non-trivial = a completed run; distinct = (GOMAXPROCS, API goroutines, yield vector)'),
+    assumptions=['the race detector only sees races that occurred on paths the stress reached', 'harness goroutines follow the documented contract (row lock to read Host/MACEntry fields obtained from FindIP, a single Parse goroutine)',
+                 'barriers are skipped after 55 s because the session\'s own minute ticker is an ungated table writer'],
+    min_obs={'quick': {'barriers': 100, 'frames_handled': 10000, 'purges': 2000, 'harness_ops': 100000, 'close_bubbles': 20, 'history_ops_checked': 2000}, 'thorough': {'barriers': 100}},
+    timeout={'quick': 1200, 'thorough': 6*3600},
+)
+META['C09'] = dict(
+    technique='Go race detector + invariant barriers + deadlock/leak monitors over a randomized multi-core stress with tag-guarded schedule perturbation; porcupine linearizability check of register-like API; synctest bubble leak detector',
+    level_text='Exploration: 8 (quick) / 48 (thorough) stress runs of ~15-40 s each, every run with its own GOMAXPROCS and yield-point perturbation vector; reports are de-duplicated by the pair of innermost library frames. Says nothing about interleavings the scheduler did not produce.',
+    level_note='Trusted base: the race detector, the harness gate (barriers are quiescent), the contract-conforming API goroutines.')
